@@ -177,6 +177,9 @@ func (e *Engine) CheckCtxPropagation() {
 	e.mu.Lock()
 	defer e.mu.Unlock()
 	for _, c := range e.captured {
+		if c.ctx.Value(detachedKey{}) != nil {
+			continue // a detached publish context never ends
+		}
 		if c.ctx.Err() == nil {
 			e.failLocked("ctx:cancel-not-propagated", "context given to registration #%d for event %d is not cancelled when the publish context is", c.reg, c.eid)
 			return
